@@ -756,6 +756,19 @@ Theorem notification_needs_listener_down :
 Proof. eexists. split; [vm_compute; reflexivity|]. cbn. auto. Qed.
 
 (* non-trivial instances of the hypotheses used above *)
+Example notification_hypotheses_instance :
+  exists s, run 1 10 false init [LConnect 0; LConnect 1; LShutdown; LAcceptExit; LPollBegin; LPollClose 0;
+                                 LRecvExit 1; LPollEnd; LPollBegin; LRecvClose 1] = Some s /\
+            earlypoll s = false /\ returned (ph s) = false /\ cst s 0 = CClosed /\ cst s 1 = CClosed /\
+            notified s 0 = true /\ notified s 1 = true.
+Proof. eexists. split; [vm_compute; reflexivity|]. cbn. repeat split; reflexivity. Qed.
+
+Example drained_return_instance :
+  exists s s', run 1 10 false init [LConnect 0; LSend 0 0; LRead 0 0; LEnqueue 0 0; LShutdown; LAcceptExit; LTake 0 0;
+                                    LStart 0 0; LPollBegin; LPollEnd; LFinish 0 0; LPollBegin; LPollClose 0] = Some s /\
+               step 1 10 false s LPollReturn = Some s' /\ ph s' = SRetDrained /\ rs s' 0 0 = Answered.
+Proof. eexists. eexists. split; [vm_compute; reflexivity|]. split; [vm_compute; reflexivity|]. cbn. split; reflexivity. Qed.
+
 Example progress_hypotheses_instance :
   exists s, run 2 10 false init [LConnect 0; LSend 0 0; LRead 0 0; LEnqueue 0 0; LShutdown; LAcceptExit; LPollBegin] = Some s /\
             alive (ph s) = true /\ unanswered (rs s 0 0) = true /\ earlypoll s = false /\ (0 < 10)%N.
